@@ -9,6 +9,19 @@ mod c39;
 
 fn main() {
     let args = parse_args();
+    {
+        // Lance panics inside spawned operations are caught (JoinError / catch_unwind) and judged
+        // by the oracles; keep stderr readable, remember where the last panic happened.
+        let debug = std::env::var("E_CONC_DEBUG").is_ok();
+        std::panic::set_hook(Box::new(move |info| {
+            let loc = info.location().map(|l| format!("{}:{}", l.file(), l.line())).unwrap_or_default();
+            if debug {
+                eprintln!("panic at {loc}: {info}");
+            }
+            engine::THREAD_PANIC_LOCATION.with(|l| *l.borrow_mut() = Some(loc.clone()));
+            *engine::LAST_PANIC_LOCATION.lock().unwrap() = Some(loc);
+        }));
+    }
     let code = match args.prop.as_str() {
         "C03" => c03::run(&args),
         "C04" => c04::run(&args),
